@@ -170,22 +170,38 @@ where
 
 // ------------------------------------------------------------------ matrices, quaternions, angles, bases
 fn float_spellings<T: Tier>(rep: &mut Report) {
+    // operand classes: generic bases; in the float tiers also all-zero, all -0.0 and tiny (generic * 2^-60) operands - a
+    // form that short-cuts on an approximate is_zero(), or computes 0 - a for -a, differs from the by-value form only there
+    let classes: Vec<usize> = if T::EXACT { vec![0, 1, 2] } else { vec![0, 1, 2, 10, 11, 12] };
+    let nc = classes.len();
     rep.cases(
         "spellings/Matrix2..4+Quaternion+Rad+Deg+Basis2+Basis3",
         T::NAME,
-        "all ordered pairs of 3 generic operands x 3 scalars; every form of every operator",
-        27,
+        &format!("all ordered pairs of {nc} operand classes (3 generic{}) x 3 scalars; every form of every operator", if T::EXACT { "" } else { ", zero, -0.0, generic * 2^-60" }),
+        nc * nc * 3,
         Guard::states(9).distinct(9),
         |i, ctx| {
-            let (ai, bi, si) = (i / 9, (i / 3) % 3, i % 3);
+            let (ai, bi, si) = (i / (3 * nc), (i / 3) % nc, i % 3);
             let s: T = rq([(2, 1), (-3, 1), (1, 2)][si]);
-            let g = |n: usize, v: usize| gen_r(n, v, false);
-            ctx.describe(|| format!("operand bases {ai}, {} scalar {:?} over {}", bi + 1, s, T::NAME));
+            // class of the first operand; of the second (shifted by one base so that a != b); of a vector operand
+            let (ca, cb) = (classes[ai], if classes[bi] < 10 { classes[bi] + 1 } else { classes[bi] });
+            let cv = if cb < 10 { cb + 1 } else { cb };
+            let opn = |n: usize, class: usize| -> Vec<T> {
+                match class {
+                    10 => vec![T::zero(); n],
+                    11 => gen_r(n, 1, false).iter().map(|r| T::q(r.0, r.1 << 60)).collect(),
+                    12 => vec![<T as num_traits::Float>::neg_zero(); n],
+                    v => gen_r(n, v, false).iter().map(|&r| rq::<T>(r)).collect(),
+                }
+            };
+            fn arr1<T: Copy, const N: usize>(v: &[T]) -> [T; N] { std::array::from_fn(|j| v[j]) }
+            fn arr2<T: Copy, const N: usize>(v: &[T]) -> [[T; N]; N] { std::array::from_fn(|c| std::array::from_fn(|r| v[c * N + r])) }
+            ctx.describe(|| format!("operand classes {ca}, {cb} (0-3 generic, 10 zero, 11 tiny, 12 negative zero) scalar {:?} over {}", s, T::NAME));
             macro_rules! mat {
                 ($M:ident, $n:expr, $mk:ident, $mkv:ident, $name:expr) => {{
-                    let a = $mk(mat_from_r::<T, $n>(&g($n * $n, ai)));
-                    let b = $mk(mat_from_r::<T, $n>(&g($n * $n, bi + 1)));
-                    let v = $mkv(vec_from_r::<T, $n>(&g($n, bi + 2)));
+                    let a = $mk(arr2::<T, $n>(&opn($n * $n, ca)));
+                    let b = $mk(arr2::<T, $n>(&opn($n * $n, cb)));
+                    let v = $mkv(arr1::<T, $n>(&opn($n, cv)));
                     let c = four!(ctx, &format!("{}/add", $name), a, b, +);
                     assign!(ctx, &format!("{}/add", $name), a, b, +=, c);
                     let c = four!(ctx, &format!("{}/sub", $name), a, b, -);
@@ -205,9 +221,9 @@ fn float_spellings<T: Tier>(rep: &mut Report) {
             mat!(Matrix3, 3, mk_m3, mk_v3, "Matrix3");
             mat!(Matrix4, 4, mk_m4, mk_v4, "Matrix4");
             // quaternions
-            let qa_ = mk_q(vec_from_r::<T, 4>(&g(4, ai)));
-            let qb = mk_q(vec_from_r::<T, 4>(&g(4, bi + 1)));
-            let v = mk_v3(vec_from_r::<T, 3>(&g(3, bi + 2)));
+            let qa_ = mk_q(arr1::<T, 4>(&opn(4, ca)));
+            let qb = mk_q(arr1::<T, 4>(&opn(4, cb)));
+            let v = mk_v3(arr1::<T, 3>(&opn(3, cv)));
             let c = four!(ctx, "Quaternion/add", qa_, qb, +);
             assign!(ctx, "Quaternion/add", qa_, qb, +=, c);
             let c = four!(ctx, "Quaternion/sub", qa_, qb, -);
@@ -224,8 +240,8 @@ fn float_spellings<T: Tier>(rep: &mut Report) {
             // angles
             macro_rules! ang {
                 ($A:ident, $name:expr) => {{
-                    let a = $A(rq::<T>(g(1, ai)[0]));
-                    let b = $A(rq::<T>(g(1, bi + 1)[0]));
+                    let a = $A(opn(1, ca)[0]);
+                    let b = $A(opn(1, cb)[0]);
                     let c = four!(ctx, &format!("{}/add", $name), a, b, +);
                     assign!(ctx, &format!("{}/add", $name), a, b, +=, c);
                     let c = four!(ctx, &format!("{}/sub", $name), a, b, -);
@@ -256,30 +272,30 @@ fn float_spellings<T: Tier>(rep: &mut Report) {
 // ------------------------------------------------------------------ scalar on the left
 trait Prim: Copy + Debug + PartialEq + Send + Sync + 'static {
     const NAME: &'static str;
-    fn vals() -> [Self; 6];
+    fn vals() -> [Self; 16];
     fn scalars() -> [Self; 3];
 }
 macro_rules! prim {
     ($t:ty, [$($v:expr),*], [$($s:expr),*]) => {
         impl Prim for $t {
             const NAME: &'static str = stringify!($t);
-            fn vals() -> [$t; 6] { [$($v as $t),*] }
+            fn vals() -> [$t; 16] { [$($v as $t),*] }
             fn scalars() -> [$t; 3] { [$($s as $t),*] }
         }
     };
 }
-prim!(u8, [1, 2, 3, 5, 7, 4], [1, 6, 13]);
-prim!(u16, [1, 2, 3, 5, 7, 4], [1, 6, 130]);
-prim!(u32, [1, 2, 3, 5, 7, 4], [1, 6, 1300]);
-prim!(u64, [1, 2, 3, 5, 7, 4], [1, 6, 13000]);
-prim!(usize, [1, 2, 3, 5, 7, 4], [1, 6, 13000]);
-prim!(i8, [1, -2, 3, -5, 7, 4], [1, -6, 13]);
-prim!(i16, [1, -2, 3, -5, 7, 4], [1, -6, 130]);
-prim!(i32, [1, -2, 3, -5, 7, 4], [1, -6, 1300]);
-prim!(i64, [1, -2, 3, -5, 7, 4], [1, -6, 13000]);
-prim!(isize, [1, -2, 3, -5, 7, 4], [1, -6, 13000]);
-prim!(f32, [1.5, -2.0, 3.25, -5.0, 7.0, 0.5], [1.0, -6.0, 0.75]);
-prim!(f64, [1.5, -2.0, 3.25, -5.0, 7.0, 0.5], [1.0, -6.0, 0.75]);
+prim!(u8, [1, 2, 3, 5, 7, 4, 6, 9, 10, 11, 8, 12, 13, 14, 15, 17], [1, 6, 13]);
+prim!(u16, [1, 2, 3, 5, 7, 4, 6, 9, 10, 11, 8, 12, 13, 14, 15, 17], [1, 6, 130]);
+prim!(u32, [1, 2, 3, 5, 7, 4, 6, 9, 10, 11, 8, 12, 13, 14, 15, 17], [1, 6, 1300]);
+prim!(u64, [1, 2, 3, 5, 7, 4, 6, 9, 10, 11, 8, 12, 13, 14, 15, 17], [1, 6, 13000]);
+prim!(usize, [1, 2, 3, 5, 7, 4, 6, 9, 10, 11, 8, 12, 13, 14, 15, 17], [1, 6, 13000]);
+prim!(i8, [1, -2, 3, -5, 7, 4, -1, 2, -3, 5, -7, -4, 6, -6, 8, -9], [1, -6, 13]);
+prim!(i16, [1, -2, 3, -5, 7, 4, -1, 2, -3, 5, -7, -4, 6, -6, 8, -9], [1, -6, 130]);
+prim!(i32, [1, -2, 3, -5, 7, 4, -1, 2, -3, 5, -7, -4, 6, -6, 8, -9], [1, -6, 1300]);
+prim!(i64, [1, -2, 3, -5, 7, 4, -1, 2, -3, 5, -7, -4, 6, -6, 8, -9], [1, -6, 13000]);
+prim!(isize, [1, -2, 3, -5, 7, 4, -1, 2, -3, 5, -7, -4, 6, -6, 8, -9], [1, -6, 13000]);
+prim!(f32, [1.5, -2.0, 3.25, -5.0, 7.0, 0.5, -1.25, 2.5, -3.0, 5.5, -7.5, -4.0, 6.0, -6.25, 8.0, -9.0], [1.0, -6.0, 0.75]);
+prim!(f64, [1.5, -2.0, 3.25, -5.0, 7.0, 0.5, -1.25, 2.5, -3.0, 5.5, -7.5, -4.0, 6.0, -6.25, 8.0, -9.0], [1.0, -6.0, 0.75]);
 
 macro_rules! left_scalar {
     ($fname:ident, $t:ty) => {
@@ -288,13 +304,13 @@ macro_rules! left_scalar {
             rep.cases(
                 &format!("left-scalar/{}", stringify!($t)),
                 "P",
-                "3 scalars x 3 rotations of a 6-value component alphabet (no zero divisors, no overflow); s*v, s/v, s%v with v and &v for Vector1-4, Point1-3, Matrix2-4",
+                "3 scalars x 3 rotations of a 16-value component alphabet (pairwise distinct components, no zero divisors, no overflow); s*v, s/v, s%v with v and &v for Vector1-4, Point1-3, Matrix2-4",
                 9,
                 Guard::states(9).distinct(5),
                 |i, ctx| {
                     let (s, rot) = (scs[i / 3], i % 3);
-                    let c = |j: usize| vals[(j + 2 * rot) % 6];
-                    ctx.describe(|| format!("{} s={:?} components rotated by {}", stringify!($t), s, 2 * rot));
+                    let c = |j: usize| vals[(j + 5 * rot) % 16];
+                    ctx.describe(|| format!("{} s={:?} components rotated by {}", stringify!($t), s, 5 * rot));
                     macro_rules! chk {
                         ($name:expr, $v:expr, $comps:expr, $flat:expr) => {{
                             let v = $v;
@@ -357,7 +373,7 @@ macro_rules! left_scalar_quat {
             let (vals, scs) = (<$t as Prim>::vals(), <$t as Prim>::scalars());
             rep.cases(&format!("left-scalar/Quaternion<{}>", stringify!($t)), "P", "3 scalars x 3 rotations of the alphabet; s*q, s/q with q and &q", 9, Guard::states(9).distinct(5), |i, ctx| {
                 let (s, rot) = (scs[i / 3], i % 3);
-                let c = |j: usize| vals[(j + 2 * rot) % 6];
+                let c = |j: usize| vals[(j + 5 * rot) % 16];
                 let q = Quaternion::new(c(3), c(0), c(1), c(2));
                 ctx.describe(|| format!("s={:?} q={:?}", s, q));
                 let flat = |r: Quaternion<$t>| vec![r.v.x, r.v.y, r.v.z, r.s];
@@ -439,22 +455,32 @@ fn folds<T: Tier>(rep: &mut Report) {
 /// the same folds over signed zeros (float tiers): `zero() + (-0.0)` is `+0.0`, so a fold that starts from its first
 /// element instead of zero() (or from one() * first) is visible only here
 fn folds_zero<T: Tier + num_traits::Float>(rep: &mut Report) {
+    folds_special::<T>(rep, 0);
+    folds_special::<T>(rep, 1);
+}
+/// mode 0: signed zeros; mode 1: letters {2^(p+1), 1, -2^(p+1)} (p the precision): the left fold rounds 2^(p+1) + 1 back to
+/// 2^(p+1), so a compensated or re-associated sum gives another answer than the left fold the statement names
+fn folds_special<T: Tier + num_traits::Float>(rep: &mut Report, mode: usize) {
     let ls = lists(3);
+    let big: T = num_traits::cast::<f64, T>(if T::NAME == "F" { 33554432.0 } else { 18014398509481984.0 }).unwrap();
     rep.cases(
-        "folds/signed-zero",
+        if mode == 0 { "folds/signed-zero" } else { "folds/rounding" },
         T::NAME,
-        "every list of length 0..3 over {all components -0.0, components alternating -0.0/+0.0, all +0.0}; Sum / Product over values and references vs the left fold from zero() / one(), compared bit for bit",
+        if mode == 0 { "every list of length 0..3 over {all components -0.0, components alternating -0.0/+0.0, all +0.0}; Sum / Product over values and references vs the left fold from zero() / one(), compared bit for bit" } else { "every list of length 0..3 over {2^(p+1), 1, -2^(p+1)} (all components): Sum over values and references vs the left fold from zero(), compared bit for bit" },
         ls.len(),
         Guard::states(40).distinct(3),
         |i, ctx| {
             let l = &ls[i];
-            ctx.describe(|| format!("list of signed-zero letters {:?} over {}", l, T::NAME));
+            ctx.describe(|| format!("list of {} letters {:?} over {}", if mode == 0 { "signed-zero" } else { "rounding" }, l, T::NAME));
             ctx.out(l);
             let z = |k: usize, j: usize| -> T {
-                match k {
-                    0 => T::neg_zero(),
-                    1 => if j % 2 == 0 { T::neg_zero() } else { T::zero() },
-                    _ => T::zero(),
+                match (mode, k) {
+                    (0, 0) => T::neg_zero(),
+                    (0, 1) => if j % 2 == 0 { T::neg_zero() } else { T::zero() },
+                    (0, _) => T::zero(),
+                    (_, 0) => big,
+                    (_, 1) => T::one(),
+                    _ => -big,
                 }
             };
             macro_rules! sum {
@@ -483,10 +509,16 @@ fn folds_zero<T: Tier + num_traits::Float>(rep: &mut Report) {
             sum!("Quaternion", Quaternion<T>, |k| mk_q::<T>(std::array::from_fn(|j| z(k, j))));
             sum!("Rad", Rad<T>, |k| Rad(z(k, 0)));
             sum!("Deg", Deg<T>, |k| Deg(z(k, 0)));
+            if mode != 0 {
+                return;
+            }
             product!("Matrix2", Matrix2<T>, |k| mk_m2::<T>(std::array::from_fn(|c| std::array::from_fn(|r| z(k, c + r)))));
             product!("Matrix3", Matrix3<T>, |k| mk_m3::<T>(std::array::from_fn(|c| std::array::from_fn(|r| z(k, c + r)))));
             product!("Matrix4", Matrix4<T>, |k| mk_m4::<T>(std::array::from_fn(|c| std::array::from_fn(|r| z(k, c + r)))));
             product!("Quaternion", Quaternion<T>, |k| mk_q::<T>(std::array::from_fn(|j| z(k, j))));
+            // rotations whose matrices / quaternions contain signed zeros: turn by -0.0 resp. +0.0, identity with signed-zero vector part
+            product!("Basis2", Basis2<T>, |k: usize| { let b: Basis2<T> = Rotation2::from_angle(Rad(z(if k == 2 { 2 } else { 0 }, 0) * if k == 1 { -T::one() } else { T::one() })); b });
+            product!("Basis3", Basis3<T>, |k: usize| Basis3::from(mk_q::<T>([T::one(), z(k, 1), z(k, 2), z(k, 3)])));
         },
     );
 }
